@@ -153,10 +153,10 @@ theorem pollM_closed (hc : ClosedM m P) (inj : BSt → Nat → BSt) (hinj : ∀ 
   · split
     · exact processLowestM_closed hc inj hinj _ h1
     · exact batchLoopM_closed hc inj hinj _ _ h1
-  · have h3 := checkFailuresM_closed hc inj hinj _ (hc.h.frame _ _ (hinj _ 5 h1) (flushSinks_frame _))
+  · have h3 := checkFailuresM_closed hc inj hinj _ (flushGate_closed hc.h inj hinj _ (inj s1 5).cfg.flushInterval (hinj _ 5 h1))
     have h4 := allEmpty_closed hc.h _ h3
     split
-    · exact cleanupLoggers_closed hc.h inj hinj _ (cleanupContextsM_closed hc _ h4)
+    · exact cleanupLoggers_closed hc.h inj hinj _ (preEraseFlush_closed hc.h _ (cleanupContextsM_closed hc _ h4))
     · exact h4
 
 theorem exitLoopM_closed (hc : ClosedM m P) (inj : BSt → Nat → BSt) (hinj : ∀ s site, P s → P (inj s site))
@@ -167,8 +167,8 @@ theorem exitLoopM_closed (hc : ClosedM m P) (inj : BSt → Nat → BSt) (hinj : 
     dsimp only
     have h1 := allEmpty_closed hc.h s h
     split
-    · exact cleanupLoggers_closed hc.h inj hinj _ (cleanupContextsM_closed hc _
-        (hc.h.frame _ _ (checkFailuresM_closed hc inj hinj _ h1) (flushSinks_frame _)))
+    · exact cleanupLoggers_closed hc.h inj hinj _ (preEraseFlush_closed hc.h _ (cleanupContextsM_closed hc _
+        (hc.h.frame _ _ (checkFailuresM_closed hc inj hinj _ h1) (flushSinks_frame _))))
     · have h0 : P { (allEmpty s).1 with now := (allEmpty s).1.now + tick } :=
         hc.h.frame _ _ h1 (Frame.of_eq rfl rfl rfl rfl rfl rfl rfl rfl rfl rfl rfl rfl rfl (fun _ h => h))
       have h2 := populate_closed' hc.h.refresh hc.q inj hinj _ h0
